@@ -4,6 +4,7 @@ import (
 	"container/heap"
 	"fmt"
 	publictypes "lunar/engine/streams/public-types"
+	"lunar/toolkit-core/verifhook"
 	"sync"
 	"time"
 
@@ -31,6 +32,8 @@ func NewMemoryQueue(key string, _ time.Duration) publictypes.SharedQueueI {
 }
 
 func (q *memoryQueue) Enqueue(item string, priority float64) error {
+	verifhook.Point("mq.enqueue", "item", item)
+	defer verifhook.Point("mq.enqueued", "item", item)
 	q.mutex.Lock()
 	defer q.mutex.Unlock()
 
